@@ -99,6 +99,7 @@ DoRet ==
          c  == ex.call[t]
          g2 == QConcRet(gc, t, r)
          predicted == ex.drift = 0 /\ th[t].pc = "idle" /\ RetEq(th[t].ret, r)
+                      /\ (r.t = "list" => SortedByTs(r.orders))      \* listings sorted by timestamp: the pinned code
          \* single-threaded: the model runs the whole call from the observed pre-state (robust
          \* against a different order of the steps inside the call)
          \* single-threaded: the pinned design runs the whole call from ITS state (robust against a
@@ -108,7 +109,6 @@ DoRet ==
          macro == ~prun.hang /\ RetEq(prun.me.ret, r)
          v  == IF ex.single /\ t = 1 THEN QVerdict(g, c, r, macro, QHasStale(pure)) ELSE {}
          extra == (IF r.t = "panic" THEN {"PANIC"} ELSE {})
-                  \cup (IF r.t = "list" /\ ~SortedByTs(r.orders) THEN {"C19"} ELSE {})
                   \cup (IF g2.bad # {} THEN {"C08"} ELSE {})
      IN /\ gc' = g2
         /\ g' = IF ex.single /\ t = 1 THEN QGhostNext(g, c, r) ELSE g
@@ -130,23 +130,29 @@ DoEnd ==
                           \cup (IF Line.drained /\ ~QMon_drained(o2, gc) THEN {Fail("C08", l)} ELSE {}))
   /\ UNCHANGED <<sh, th, ob, g, gc, ex, pure>>
 
-(* construction paths: same orders; list and text forms keep the input order / timestamp order *)
+(* construction paths.  C19 states: "yields a queue with the same orders" (and the listing shows each
+   once).  How the built queue is laid out (one ticket per element, list order for from_vec, timestamp
+   order for the text form) and that listings are sorted by timestamp is the pinned code: conformance. *)
 BuildOk(b) ==
   LET want == QFrom(b.input)
       got  == ObsOf(b.st) IN
   /\ b.ok
   /\ got.qmap = want.qmap
+  /\ Len(b.list) = Cardinality(QLive(want.qmap)) /\ Range(b.list) = {want.qmap[i] : i \in QLive(want.qmap)}
+BuildConf(b) ==
+  LET want == QFrom(b.input)
+      got  == ObsOf(b.st) IN
   /\ Len(got.tickets) = Len(b.input) /\ Range(got.tickets) = Range(want.tickets)
   /\ (b.via \in {"from_vec", "from"} => got.tickets = want.tickets)
   /\ (b.via = "text" => SortedByTs([k \in DOMAIN got.tickets |-> got.qmap[got.tickets[k]]]))
-  /\ Len(b.list) = Cardinality(QLive(want.qmap)) /\ Range(b.list) = {want.qmap[i] : i \in QLive(want.qmap)}
   /\ SortedByTs(b.list)
 
 DoBuild ==
   /\ Line.k = "build"
   /\ sum' = LET s2 == [sum EXCEPT !.builds = @ + 1] IN
-            IF BuildOk(Line) THEN s2
-            ELSE AddFails(s2, {[mon |-> "C19", line |-> l, sc |-> Line.sc, run |-> 0]})
+            IF ~BuildOk(Line) THEN AddFails(s2, {[mon |-> "C19", line |-> l, sc |-> Line.sc, run |-> 0]})
+            ELSE IF BuildConf(Line) \/ Cardinality(s2.drifts) >= MaxFails THEN s2
+            ELSE [s2 EXCEPT !.drifts = @ \cup {[line |-> l, sc |-> Line.sc, run |-> 0]}]
   /\ UNCHANGED <<sh, th, ob, g, gc, ex, pure>>
 
 Next == /\ l <= Len(Rec) /\ l' = l + 1 /\ (DoReset \/ DoCall \/ DoOp \/ DoRet \/ DoEnd \/ DoBuild)
